@@ -150,6 +150,7 @@ def anm_entry_text(rng, game, idx, sprites, has_data=False):
     f += ['img_width: %d' % w, 'img_height: %d' % h, 'img_format: %d' % r.pick([1, 3, 5, 7])]
     if not old and r.chance(0.5): f += ['offset_x: %d' % r.randint(0, 8), 'offset_y: %d' % r.randint(0, 8)]
     if old and r.chance(0.4): f.append('colorkey: 0x%x' % r.pick([0, 0xff00ff, 0x123456]))
+    if old and r.chance(0.2): f.append('path_2: "subdir/file%d_a.png"' % idx)     # (only the old header has a field for a second path)
     if r.chance(0.4): f.append('memory_priority: %d' % r.pick([0, 10, 11]))
     if not old and r.chance(0.3): f.append('low_res_scale: %s' % r.pick(['true', 'false']))
     sp = ', '.join('%s: {%sx: %s, y: %s, w: %s, h: %s}' % (n, ('id: %d, ' % i) if i is not None else '', *[repr(float(r.randint(0, 512))) for _ in range(4)]) for n, i in sprites)
